@@ -116,6 +116,10 @@ func LoadDeviceConfigs(ctx context.Context, wg *sync.WaitGroup) (DeviceConfigs, 
 }
 
 func loadDirectory(root, configType string, configMap ConfigMap) (err error) {
+	// filepath.Walk does not follow a symbolic link given as its root (a directory kept elsewhere and linked here)
+	if resolved, err := filepath.EvalSymlinks(root); err == nil {
+		root = resolved
+	}
 	err = filepath.Walk(root, func(path string, info fs.FileInfo, err error) error {
 		if err != nil {
 			return err
